@@ -166,6 +166,14 @@ def judgeStep (old new : PDesc) (op : Op) (m : Meta) (bounds : List (String × I
       match op with
       | .create c _ _ => if !(q.id == c.pid && q.state == 1) then bad := "created-not-pending" :: bad
       | _ => bad := "created-by-non-create" :: bad
+  -- an owner registration disappears only through its own lifecycler's shutdown (if so configured) or the
+  -- editor's RemoveMultiPartitionOwner for exactly that owner
+  for o in old.owners do
+    if !(new.owners.any (·.id == o.id)) then
+      match op with
+      | .stopping c rm => if !(rm && c.ownerID == o.id) then bad := "registration-lost" :: bad
+      | .removeMultiOwner inst pid => if !(inst ++ "/" ++ toString pid == o.id) then bad := "registration-lost" :: bad
+      | _ => bad := "registration-lost" :: bad
   return bad
 
 def handleHist (f : List String) : String × String × String :=
@@ -207,6 +215,104 @@ def handleHist (f : List String) : String × String × String :=
         let tags := s!"hist ops={bucket opl.length} lcs={cfgs.length} changed={bucket changed} promo={promo} del={del} failed={lockedErr} notAllowed={notAllowed} delayedWait={delayed}"
         (diff, joinReasons judge, tags)
       | _, _ => ("bad-ops", "-", "-")
+    | _, _ => ("bad-input", "-", "-")
+  | _ => ("bad-fields", "-", "-")
+
+/-! ### the real service loop -/
+
+def parseLoopCfg (s : String) : Option Loop :=
+  match s.splitOn "," with
+  | [pid, inst, m, wc, wd, da, cr, rm] => do
+    pure { cfg := { pid := ← pid.toInt?, inst := inst, multi := m == "1", waitCount := ← wc.toNat?, waitDur := ← wd.toInt?,
+                    deleteAfter := ← da.toInt? }, createOnStartup := cr == "1", removeOwnerOnShutdown := rm == "1" }
+  | _ => none
+
+/-- one scripted action: the acts the system performs (the action, then one full reconcile tick) and the
+operation whose error class is reported -/
+def parseLoopItem (l : Loop) (s : String) : Option (List Act × Option Op × Meta × Bool) :=
+  match s.splitOn "@" with
+  | [body, br] =>
+    match br.splitOn ":" with
+    | [a, b] => do
+      let m : Meta := { t0 := ← a.toInt?, t1 := ← b.toInt? }
+      match body.splitOn "," with
+      | ["S", n, na, nt] => do
+        let nt ← nt.toInt?
+        pure ([.start 0 (List.replicate (← n.toNat?) 0) (← na.toInt?) (nt, nt)], none, m, false)
+      | ["A", to, na, nt] => do
+        let nt ← nt.toInt?; let op := Op.change l.cfg.pid (← to.toNat?) (← na.toInt?)
+        pure ([.event 0 (.actor (← to.toNat?) (← na.toInt?)), .event 0 (.tick nt nt)], some op, m, false)
+      | ["E", pid, to, na, nt] => do
+        let nt ← nt.toInt?; let op := Op.change (← pid.toInt?) (← to.toNat?) (← na.toInt?)
+        pure ([.editor op, .event 0 (.tick nt nt)], some op, m, false)
+      | ["L", pid, b, na, nt] => do
+        let nt ← nt.toInt?; let op := Op.lock (← pid.toInt?) (b == "1") (← na.toInt?)
+        pure ([.editor op, .event 0 (.tick nt nt)], some op, m, true)
+      | ["T", _, nt] => do
+        let nt ← nt.toInt?
+        pure ([.event 0 (.tick nt nt)], none, m, false)
+      | ["X"] => pure ([.event 0 .stop], none, m, false)
+      | _ => none
+    | _ => none
+  | _ => none
+
+/-- reachable by legal edges (reflexive-transitive closure, written out) -/
+def reachableState (a b : Nat) : Bool :=
+  a == b || (a == 1 && (b == 2 || b == 3)) || ((a == 2 || a == 3) && (b == 2 || b == 3))
+
+/-- judge one observed step of the real loop (action + at least one full tick) from the property text -/
+def judgeLoopStep (l : Loop) (old new : PDesc) (running : Bool) (isLockOp : Bool) (m : Meta) : List String := Id.run do
+  let c := l.cfg
+  let mut bad : List String := []
+  for p in old.parts do
+    match new.parts.find? (·.id == p.id) with
+    | some q =>
+      if !reachableState p.state q.state then bad := "illegal-edge" :: bad
+      if p.state != q.state && p.locked && q.locked && !isLockOp then bad := "changed-while-locked" :: bad
+    | none =>
+      let owners := (old.owners.filter (·.partition == p.id)).length
+      if !(p.id != c.pid && p.state == 3 && p.stateTs < m.t1 - c.deleteAfter && owners == 0 && c.deleteAfter > 0) then
+        bad := "deletion-guard" :: bad
+  for q in new.parts do
+    if (old.parts.find? (·.id == q.id)).isNone then
+      if !(q.id == c.pid && (q.state == 1 || q.state == 2)) then bad := "created-not-pending" :: bad
+  if running then
+    if !(new.owners.any fun o => o.id == c.ownerID && o.partition == c.pid && o.state == 1) then
+      bad := "registration-lost" :: bad
+  return bad
+
+def handleLoop (f : List String) : String × String × String :=
+  match f with
+  | [init, lcs, script, obs] =>
+    match parsePDesc init, parseLoopCfg lcs with
+    | some d0, some l =>
+      match (script.splitOn ";").mapM (parseLoopItem l), (obs.splitOn "#").mapM (fun o => match o.splitOn "@" with
+          | [r, d] => (parsePDesc d).map fun pd => (r, pd) | _ => none) with
+      | some items, some obl =>
+        if items.length != obl.length then ("bad-lengths", "-", "-") else
+        let s0 : Sys := { ring := d0, phase := fun _ => .new }
+        let (_, mOut) := items.foldl (fun (acc : Sys × List String) it =>
+          let (acts, op, _, _) := it
+          let res := match op with
+            | some o => (match step acc.1.ring o with | .ok _ => "ok" | .error e => e.name)
+            | none => "ok"
+          let s' := sysRun [l] acc.1 acts
+          (s', acc.2 ++ [res ++ "@" ++ showPDescOpt true s'.ring])) (s0, [])
+        let mStr := "#".intercalate mOut
+        let diff := if mStr == obs then "-" else
+          let firstBad := ((mOut.zip (obs.splitOn "#")).zipIdx.find? fun ((a, b), _) => a != b).map fun ((a, _), i) => s!"step{i}:{a}"
+          "model=" ++ firstBad.getD "?"
+        let vers := d0 :: obl.map (·.2)
+        let n := items.length
+        let judge := (((vers.zip (vers.drop 1)).zip items).zipIdx).flatMap fun (((a, b), it), i) =>
+          judgeLoopStep l a b (i + 1 < n) it.2.2.2 it.2.2.1
+        let changed := ((vers.zip (vers.drop 1)).filter fun (a, b) => a != b).length
+        let promoted := (vers.zip (vers.drop 1)).any fun (a, b) =>
+          ((a.parts.find? (·.id == l.cfg.pid)).map (·.state)) != some 2 && ((b.parts.find? (·.id == l.cfg.pid)).map (·.state)) == some 2
+        let deleted := (vers.zip (vers.drop 1)).any fun (a, b) => a.parts.length > b.parts.length
+        let tags := s!"loop steps={bucket n} changed={bucket changed} promoted={promoted} deleted={deleted} create={l.createOnStartup} remove={l.removeOwnerOnShutdown}"
+        (diff, joinReasons judge, tags)
+      | _, _ => ("bad-script", "-", "-")
     | _, _ => ("bad-input", "-", "-")
   | _ => ("bad-fields", "-", "-")
 
@@ -293,6 +399,7 @@ def handleMrepl (f : List String) : String × String × String :=
 def handle (cmd : String) (f : List String) : String × String × String :=
   if cmd == "C15.route" then handleRoute f
   else if cmd == "C15.hist" then handleHist f
+  else if cmd == "C15.loop" then handleLoop f
   else if cmd == "C15.repl" then handleRepl f
   else if cmd == "C15.mrepl" then handleMrepl f
   else ("unknown-cmd", "-", "-")
